@@ -91,9 +91,9 @@ def gen_case(rng, tier):
     explicit = rng.random() < .3
     single = rng.random() < .04
     p = gen_pomdp.gen_pomdp(rng, nmax=1 if single else 5, min_states=1 if single else 2, tiny=.4, near_twin=.6, ghosts=.3, state_actions=.3, nondyadic=.25,
-                            tiny_trans=.3, tiny_init=.15,
+                            tiny_trans=.3, tiny_init=.15, many_absorbing=.3,
                             big_rewards=.1, force_reachable=not (explicit and rng.random() < .8))
-    beliefs = gen_pomdp.gen_beliefs(rng, p, n_grid=2, tiny=True, nondyadic=bool(p.get("nondyadic")))
+    beliefs = gen_pomdp.gen_beliefs(rng, p, n_grid=2, tiny=True, nondyadic=bool(p.get("nondyadic")), absorbing_nd=True)
     for be in beliefs:          # how the belief is handed to msdm
         perm = list(range(p["n"]))
         if rng.random() < .5:
@@ -102,7 +102,16 @@ def gen_case(rng, tier):
                    "vec": rng.choice(["ndarray", "ndarray", "list", "tuple", "intarray", "float32"]),
                    "npidx": rng.random() < .3, "int01": rng.random() < .3,
                    "own_initial": be["kind"] == "initial" and rng.random() < .7})
-    variant = {"labels": _labels(rng, p), "int01": rng.random() < .3, "dist_types": rng.random() < .3, "share_objects": rng.random() < .4,
+    declare = None
+    if rng.random() < .3:       # the class declares observation_list (and maybe state_list / action_list), permuted
+        def shuffled(k):
+            x = list(range(k))
+            rng.shuffle(x)
+            return x
+        declare = {"O": shuffled(p["nO"])}
+        if rng.random() < .5:
+            declare.update({"S": shuffled(p["n"]), "A": shuffled(p["nA"])})
+    variant = {"declare": declare, "labels": _labels(rng, p), "int01": rng.random() < .3, "dist_types": rng.random() < .3, "share_objects": rng.random() < .4,
                "order": rng.choice(["matrix-first", "belief-first", "dict-first"])}
     return {"pomdp": p, "beliefs": beliefs, "explicit_lists": explicit, "variant": variant}
 
@@ -328,7 +337,8 @@ def _run(ctx, tier):
     terms, meta = [], []
     feats, cnt = {}, {k: 0 for k in ("bao_triples", "impossible_observations", "rare_observations_Z_le_1e-8", "posteriors_with_tiny_component", "posteriors_with_zero_and_mixed_support",
                                      "belief_next_with_merged_posteriors", "belief_next_with_several_successors",
-                                     "absorbing_beliefs", "beliefs", "belief_action_checks",
+                                     "absorbing_beliefs", "beliefs", "belief_action_checks", "absorbing_beliefs_on_2plus_states_float_sum_not_1",
+                                     "absorbing_successor_beliefs_on_2plus_states", "absorbing_successor_beliefs_float_sum_not_1",
                                      "belief_action_pairs_skipped_action_not_offered_on_support")}
     kinds = {}
     for i, (case, res) in enumerate(zip(cases, impl)):
@@ -400,6 +410,8 @@ def _run(ctx, tier):
             ctx.violation("C07:object-reuse:second-evaluation-on-the-same-objects-differs",
                           {"case": case, "repeat_equal": res["repeat_equal"]}, found=False)
         v_ = case.get("variant", {})
+        dk = "declared_lists=%s" % ("none" if not v_.get("declare") else "obs+state+action" if v_["declare"].get("S") else "obs")
+        feats[dk] = feats.get(dk, 0) + 1
         for k_ in ("order", "int01", "dist_types", "share_objects"):
             key = "variant_%s=%s" % (k_, v_.get(k_))
             feats[key] = feats.get(key, 0) + 1
@@ -415,6 +427,16 @@ def _run(ctx, tier):
             kinds[be["kind"]] = kinds.get(be["kind"], 0) + 1
             cnt["beliefs"] += 1
             cnt["absorbing_beliefs"] += int(bool(res["beliefs"][bi]["is_absorbing"]))
+            fb = [float(F(be["b"][s_])) for s_ in res["state_list"]]
+            ab_ = [bool(p["absorbing"][s_]) for s_ in res["state_list"]]
+            if sum(1 for x in fb if x > 0) >= 2 and all(ab_[k_] for k_, x in enumerate(fb) if x > 0) and gen_pomdp.lr_float_sum(fb) != 1.0:
+                cnt["absorbing_beliefs_on_2plus_states_float_sum_not_1"] += 1
+            for r_ in res["beliefs"][bi]["actions"]:
+                for nb_, _p in r_["belief_next"]:
+                    fx = [float(vlib.frac(x)) for x in nb_]
+                    if sum(1 for x in fx if x > 0) >= 2 and all(ab_[k_] for k_, x in enumerate(fx) if x > 0):
+                        cnt["absorbing_successor_beliefs_on_2plus_states"] += 1
+                        cnt["absorbing_successor_beliefs_float_sum_not_1"] += int(gen_pomdp.lr_float_sum(fx) != 1.0)
             for r in res["beliefs"][bi]["actions"]:
                 cnt["belief_action_checks"] += 1
                 stats_ba(case, res, bi, r["ai"], cnt)
@@ -456,6 +478,18 @@ def _run(ctx, tier):
                 ai = res["beliefs"][bi]["actions"][j]["ai"]
                 nevals += 1
                 failed = [c for c, okv in zip(CLAUSES, flags) if not okv]
+                rj = res["beliefs"][bi]["actions"][j]
+                absf_sl = [bool(case["pomdp"]["absorbing"][s]) for s in res["state_list"]]
+                for (nb, _p), got in zip(rj["belief_next"], rj["belief_next_absorbing"]):
+                    exact = all(absf_sl[k_] for k_, x in enumerate(nb) if vlib.frac(x) > 0)
+                    if bool(got) != exact:
+                        ctx.violation("C07:is_absorbing:not-iff-all-mass-on-absorbing-states",
+                                      {"case": case, "belief_index": bi, "belief": be, "action_index": ai,
+                                       "successor_belief": [float(vlib.frac(x)) for x in nb], "impl": got,
+                                       "all_mass_on_absorbing": exact,
+                                       "clause": "a belief (here: a successor belief produced by BeliefMDP.next_state_dist) is "
+                                                 "absorbing exactly when all its mass is on absorbing states"}, found=True)
+                        break
                 rws = res["beliefs"][bi]["actions"][j]["belief_reward_by_successor"]
                 if any(x != rws[0] for x in rws):
                     ctx.violation("C07:belief_reward:depends-on-the-successor-belief",
